@@ -145,6 +145,8 @@ class Interleave(e2e.E2E):
                 for j in p.get("concrete_bytes", []):
                     if j < Lb and j not in (4, 5):
                         bs[j] = (17 * (g + 1) + 3 * i + j) & 0xFF if j > 1 else 0
+                if "apid" in p and (g + i) % 2 == 0:       # every other packet is of the APID the template defines
+                    bs[0], bs[1] = p["apid"] >> 8, p["apid"] & 0xFF
                 items += bs
             streams.append(bv.SymBytes(items))
         gens = [self.defn.packet_generator(s, parse_bad_pkts=parse_bad, yield_unrecognized_packet_errors=yield_unrec) for s in streams]
@@ -224,10 +226,10 @@ def jobs(tier):
     if tier == "quick":
         return [J("e2e", "stream-T6", "T6", [12, 11, 12], flagsets=(0, 3)),
                 J("independent", "indep-T4", "T4", [9, 10, 9], flagsets=(1, 2)),
-                J("interleave", "interleave-T6", "T6", [12, 12], concrete_bytes=[0, 6, 7, 8, 9, 10])]
+                J("interleave", "interleave-T6", "T6", [12, 12], concrete_bytes=[0, 6, 7, 8, 9, 10], apid=6)]
     return [J("e2e", "stream-T4", "T4", [9, 10, 9, 10], flagsets=(0, 3)), J("e2e", "stream-T6", "T6", [12, 11, 12]), J("e2e", "stream-T5", "T5", [9, 8, 9], flagsets=(0, 1)),
             J("independent", "indep-T4", "T4", [10, 9, 10]), J("independent", "indep-T6", "T6", [12, 12, 11], flagsets=(0, 3)),
-            J("interleave", "interleave-T6", "T6", [12, 12, 12], concrete_bytes=[0, 6, 7, 8, 9, 10]),
+            J("interleave", "interleave-T6", "T6", [12, 12, 12], concrete_bytes=[0, 6, 7, 8, 9, 10], apid=6),
             J("interleave", "interleave-T4", "T4", [9, 10], concrete_bytes=[0, 2, 3])]
 
 
@@ -248,6 +250,7 @@ def concrete(req):     # noqa: F811
     i = req["input"]
     xml, _, _ = templates.get(i["template"])
     d = definitions.XtcePacketDefinition.from_xtce(io.BytesIO(xml))
+    snap0 = structural.definition_snapshot(d)
     streams = [bytes.fromhex(s["hex"]) for s in i["streams"]]
     import warnings
     with warnings.catch_warnings():
@@ -273,7 +276,7 @@ def concrete(req):     # noqa: F811
             return str(v)
         return enc_concrete(bytes(v))
     items = [[[[nm, enc(v)] for nm, v in ((y.partial_data if isinstance(y, Exception) else y) or {}).items()] for y in got[g]] for g in range(2)]
-    return {"cls": "ran", "counts": [len(got[0]), len(got[1])], "items": items}
+    return {"cls": "ran", "counts": [len(got[0]), len(got[1])], "items": items, "definition_changed": structural.definition_snapshot(d) != snap0}
 
 
 def judge(req, got):      # noqa: F811
@@ -283,6 +286,8 @@ def judge(req, got):      # noqa: F811
     seq = concrete({**req, "input": {**req["input"], "schedule": [0] * 8 + [1] * 8}})
     if got.get("cls") != "ran":
         return "error", str(got)[:300]
+    if got.get("definition_changed"):
+        return "reproduced", f"parsing (schedule {req['input']['schedule']}) modified the definition object graph"
     if seq["items"] != got["items"]:
         return "reproduced", f"schedule {req['input']['schedule']}: interleaved results {str(got['items'])[:300]} differ from sequential {str(seq['items'])[:300]}"
     return "not-reproduced", "interleaved == sequential"
